@@ -5,7 +5,7 @@
    Whole-engine equivalence with stock Jinja2 is NOT a theorem (no Gallina semantics of Jinja): it is probed by
    differential rendering in tools/checks/c19.py (partial). *)
 From Coq Require Import String.
-From Verif Require Import JinjaScan JinjaScanThm JinjaLinePrefixThm JinjaRules Gen_JinjaRules JinjaRulesThm.
+From Verif Require Import JinjaScan JinjaScanThm JinjaLinePrefixThm JinjaRules Gen_JinjaRules JinjaRulesThm JinjaPins JinjaPinsThm.
 Open Scope N_scope.
 
 (* (1) Conservativity of the lexer modification.  For EVERY source that contains no occurrence of an opener followed by
@@ -172,3 +172,41 @@ Example C19_option_combinations_cover_the_switches :
   existsb (fun c => Nat.ltb 3 (length (c_order_bundled c))) lexer_combos = true /\
   existsb (fun c => negb (str_eqb (c_bs c) (s2l "\{%"))) lexer_combos = true.
 Proof. exact combos_cover. Qed.
+
+(* (7) ifuses/ifnuses/elifuses/elifnuses when the answer of a query changes between and during renders in one long-lived
+   environment: for every world S and every `ask`, every sequence of renders behaves like the ordinary conditional chains over
+   the same world -- same outputs AND same final world (the same queries are asked, in the same order, equally often). *)
+Theorem C19_ifuses_changing_answers :
+  forall (S B : Type) (ask : S -> N -> bool * S) (steps : list ((bool * N * B) * list (bool * N * B) * B)) (s : S),
+    render_seq (map (fun st => eval_ifT (parse_ifusesT ask (fst (fst st)) (snd (fst st)) (snd st))) steps) s =
+    render_seq (map (fun st => run_chain ask (fst (fst st) :: snd (fst st)) (snd st)) steps) s.
+Proof. exact ifuses_seq_is_chain_seq_lemma. Qed.
+Print Assumptions C19_ifuses_changing_answers.
+
+Example C19_ifuses_changing_answers_example :
+  (* q0 answers true, false, false, true: render 1 asks once (1), render 2 asks twice (2), render 3 sees true again (1) *)
+  render_ifuses_script [((false, 0, 1), [(true, 0, 2)], 9); ((false, 0, 1), [(true, 0, 2)], 9); ((false, 0, 1), [(false, 0, 2)], 9)]
+                       [(0, [true; false; false; true])] = [1; 2; 1].
+Proof. vm_compute. reflexivity. Qed.
+
+(* (8) source pins of the modified python outside the lexer tables (regenerated on every run, Generated/Gen_JinjaPins.v):
+   Parser.subparse minus the three marker-specific pieces IS the stock Parser.subparse (so print statements are parsed with
+   parse_tuple(with_condexpr=True), block statements with parse_statement, exactly as upstream); every other Parser method
+   has the stock method's shape or a reviewed upstream-version difference; JinjaAssert / UseQuery have exactly the pinned
+   members and method shapes and store nothing on self/cls/module level. *)
+Theorem C19_subparse_demarked_is_stock : subparse_bundled_demarked = subparse_stock.
+Proof. exact subparse_demarked_is_stock_lemma. Qed.
+Print Assumptions C19_subparse_demarked_is_stock.
+
+Theorem C19_parser_methods_pinned :
+  forallb method_ok parser_methods_bundled = true /\ parser_rest_bundled = expected_parser_rest.
+Proof. exact parser_methods_pinned_lemma. Qed.
+Print Assumptions C19_parser_methods_pinned.
+
+Theorem C19_extensions_pinned_and_stateless :
+  pairs_eqb ext_methods expected_ext_methods = true /\
+  pairs_eqb ext_class_members expected_ext_class_members = true /\
+  ext_toplevel = expected_ext_toplevel /\
+  ext_state_stores = [].
+Proof. exact extensions_pinned_lemma. Qed.
+Print Assumptions C19_extensions_pinned_and_stateless.
